@@ -234,6 +234,14 @@ func dischargeAll(obs []*Oblig, dir string, timeoutS int, workers int) {
 				os.WriteFile(ob.linSMT, []byte(header+"; hypotheses with symbolic products omitted\n"+RenderVC(lin, ob.Goal, false)), 0o644)
 			}
 		}
+		if ob.Expect == "unsat" && ob.Goal != nil && !ob.Goal.IsTrue() && len(ob.Hyps) > 60 {
+			// relevance-pruned form: only the hypotheses connected to the goal through shared symbols (three
+			// rounds of closure); a subset of the hypotheses, so a proof from it is a proof
+			if rel := relevantHyps(ob.Hyps, ob.Goal, 3); len(rel) < len(ob.Hyps) {
+				ob.relSMT = filepath.Join(dir, fmt.Sprintf("vc%04dr.smt2", i))
+				os.WriteFile(ob.relSMT, []byte(header+"; hypotheses not connected to the goal omitted\n"+RenderVC(rel, ob.Goal, false)), 0o644)
+			}
+		}
 		if ob.AltGoal != nil && ob.Expect == "unsat" {
 			// the same proof obligation in its unsplit form: tried when the split part is not decided
 			ob.altSMT = filepath.Join(dir, fmt.Sprintf("vc%04da.smt2", i))
@@ -264,17 +272,21 @@ func dischargeAll(obs []*Oblig, dir string, timeoutS int, workers int) {
 			}
 			// all three back ends race (z3 4.8.12 decides some goals the newer ones do not, and vice versa)
 			var first []string
-			r := solveRace(ob.SMT, to, first)
-			if r.status == "unknown" && ob.Expect == "unsat" && first != nil {
-				r2 := solveRace(ob.SMT, to, []string{"z3"})
-				for k, v := range r.all {
-					r2.all[k] = v
+			var r solveResult
+			r = solveRace(ob.SMT, to, first)
+			if r.status != "unsat" && r.status != "sat" && ob.Expect == "unsat" && ob.relSMT != "" {
+				// relevance-pruned form, tried when the full form is not decided: an `unsat` of it is a proof (a subset
+				// of the hypotheses); any other answer of it is ignored
+				if rr := solveRace(ob.relSMT, to, nil); rr.status == "unsat" {
+					rr.secs += r.secs
+					rr.backend += "(relevant-hyps)"
+					for k, v := range r.all {
+						if _, ok := rr.all[k]; !ok {
+							rr.all[k] = v
+						}
+					}
+					r = rr
 				}
-				r2.secs += r.secs
-				if r2.status == "unknown" {
-					r2.out = r.out
-				}
-				r = r2
 			}
 			if r.status != "unsat" && ob.Expect == "unsat" && ob.linSMT != "" {
 				if rl := solveRace(ob.linSMT, to, nil); rl.status == "unsat" {
@@ -347,4 +359,65 @@ func hasSymbolicProduct(t *Term) bool {
 	}
 	symProdMemo[t] = r
 	return r
+}
+
+func termSymbols(t *Term, out map[string]bool, seen map[*Term]bool) {
+	if seen[t] {
+		return
+	}
+	seen[t] = true
+	switch t.Op {
+	case "var":
+		out["v:"+t.Name] = true
+	case "app":
+		out["f:"+t.Name] = true
+	}
+	for _, a := range t.Args {
+		termSymbols(a, out, seen)
+	}
+}
+
+// relevantHyps: the hypotheses reachable from the goal through shared variables / function symbols.
+func relevantHyps(hyps []*Term, goal *Term, rounds int) []*Term {
+	syms := map[string]bool{}
+	termSymbols(goal, syms, map[*Term]bool{})
+	hs := make([]map[string]bool, len(hyps))
+	for i, h := range hyps {
+		hs[i] = map[string]bool{}
+		termSymbols(h, hs[i], map[*Term]bool{})
+	}
+	keep := make([]bool, len(hyps))
+	for r := 0; r < rounds; r++ {
+		add := map[string]bool{}
+		for i := range hyps {
+			if keep[i] {
+				continue
+			}
+			// hypotheses that mention many symbols (big conjunctions of the precondition) connect everything:
+			// they are taken only if a large share of them is already relevant
+			shared := 0
+			for s := range hs[i] {
+				if syms[s] {
+					shared++
+				}
+			}
+			if shared == 0 || (len(hs[i]) > 12 && shared*3 < len(hs[i]) && r > 0) {
+				continue
+			}
+			keep[i] = true
+			for s := range hs[i] {
+				add[s] = true
+			}
+		}
+		for s := range add {
+			syms[s] = true
+		}
+	}
+	var out []*Term
+	for i, h := range hyps {
+		if keep[i] {
+			out = append(out, h)
+		}
+	}
+	return out
 }
